@@ -165,9 +165,13 @@ SlowPrograms ==
             ProbeAt(i + j), ProbeAt(i + j + 3), Fin(1), Fin(2), ProbeAt(i + j + 1) >>)
       : i \in 1..Len(SlowClasses), j \in 1..Len(SlowClasses) }
 
+\* more connections than the process has descriptors; the clients then half-close without a request ("eof"), so the
+\* server gets rid of every connection as soon as it has accepted it (with "silent" the connections left in the
+\* listen backlog are closed in waves of one 10 s read time-out each - up to a minute of server time, depending on
+\* how the descriptors happened to be split between client and server ends)
 FloodPrograms ==
   { Prog("flood", BaseCfg, <<Base, Other>>,
-         << ProbeAt(0), Open(1, K(tr, "silent"), FloodN), Snd(1, K(tr, "silent")), Fin(1),
+         << ProbeAt(0), Open(1, K(tr, "eof"), FloodN), Snd(1, K(tr, "eof")), Fin(1),
             ProbeAt(0), ProbeAt(1), ProbeAt(2), ProbeAt(3) >>) : tr \in {"tcp", "http"} }
 
 StaticPrograms ==
